@@ -544,6 +544,9 @@ func check(id, tier string) int {
 	}
 	// 2. run all parts; at most 16 workers at a time
 	budget := 100
+	if m.ID == "C19" {
+		budget = 150 // seventeen scenarios; about 95 s on 16 idle cores
+	}
 	if tier == "thorough" {
 		budget = 1500
 	}
